@@ -236,4 +236,4 @@ def replay(path):
 MANIFEST = dict(engine='api-matrix', level='exploration',
   technique='exhaustive request matrix (routes x methods x credentials x session states x id spellings) on the real HTTP dispatchers over an in-process raft node, with before/after state, log and body-leak oracles',
   text='Every combination of session state (fresh, logged in with messages waiting, deleted in four ways, never existed, id 0, not yet seen), id spelling (hex, decimal, other bases, overflow, slash, garbage, empty), route (POST message, GET messages with and without lastseen, DELETE, and all off-route method/path shapes) and credential (absent, empty, one character off, truncated, extended, upper case, other live session, deleted session, network password) is sent to the real public dispatcher; anything but the correct secret must get a non-2xx answer, add nothing to the raft log, leave the state dump and the output stream untouched and reveal neither message texts nor secrets. The correct secret must be accepted and effective, and refused once the session is deleted. Every private path (parsed from the switch in api.go at check time and compared with the harness table) is sent with four methods and seventeen wrong basic-auth variants: 401 with WWW-Authenticate, no effect, no leak; private paths below /robustirc/v1/ must not be served by the public dispatcher. A handler that takes the process down is detected through a per-request progress file.',
-  note='Single leader node only: the proxy-to-leader path of followers for unknown sessions is not exercised. TLS, the net/http mux and real sockets are outside the harness. Timing side channels (non-constant-time comparison of secrets) are not examined. quick runs the matrix from four histories (plain, one more post, config change, snapshot+restart), thorough from all 85 sequences of at most three history operations.')
+  note='Single leader node only: the proxy-to-leader path of followers for unknown sessions is not exercised. TLS, the net/http mux and real sockets are outside the harness. Timing side channels (non-constant-time comparison of secrets) are not examined. quick runs the matrix from four histories (plain, one more post, config change, snapshot+restart), thorough from all 85 sequences of at most three history operations. Further tiers: requests on the id the next session will get, refused requests while the victim has a stream open, members of the replicated message structure in the request body, the network password as basic auth on session routes.')
